@@ -9,6 +9,8 @@ TX = "rust/lance/src/dataset/transaction.rs"
 MK = "rust/lance-core/src/utils/mask.rs"
 FF = "rust/lance-table/src/feature_flags.rs"
 MW = "rust/lance/src/index/mem_wal.rs"
+OPT = "rust/lance/src/dataset/optimize.rs"
+FIELD = "rust/lance-core/src/datatypes/field.rs"
 
 MUTANTS = [
     # ------------------------------------------------------------------ C02
@@ -281,7 +283,7 @@ pub async fn plan_compaction(""", expect="mutator:dataset::optimize::drop_old_fi
          old="""                let maybe_in_progress = !self.policy.delete_unverified
                     && obj_meta.last_modified >= verification_threshold;""",
          new="""                let maybe_in_progress = !self.policy.delete_unverified
-                    && obj_meta.last_modified < verification_threshold;""", expect="recent-test"),
+                    && obj_meta.last_modified < verification_threshold;""", expect="maybe_in_progress"),
     dict(name="c08_manifest_read_error_skipped", prop="C08", file="rust/lance/src/dataset/cleanup.rs", what="unreadable manifests are skipped",
          old="""        let manifest =
             read_manifest(&self.dataset.object_store, &location.path, location.size).await?;""",
@@ -368,17 +370,8 @@ pub async fn plan_compaction(""", expect="mutator:dataset::optimize::drop_old_fi
          old="            physical_rows: f.physical_rows.unwrap_or_default() as u64,", new="            physical_rows: 0,",
          expect="physical_rows"),
     dict(name="c32_update_mode_dropped", prop="C32", file=TX, what="Update.fields_modified bound to _ in the encoder",
-         old="""                fields_modified,
-                mem_wal_to_merge,
-                fields_for_preserving_frag_bitmap,
-                update_mode,
-            } => pb::transaction::Operation::Update(pb::transaction::Update {""",
-         new="""                fields_modified: _,
-                mem_wal_to_merge,
-                fields_for_preserving_frag_bitmap,
-                update_mode,
-            } => pb::transaction::Operation::Update(pb::transaction::Update {
-                fields_modified: vec![],""", expect="Update.fields_modified"),
+         old="                fields_modified: fields_modified.clone(),",
+         new="                fields_modified: Vec::new(),", expect="Update.fields_modified"),
     dict(name="c01_unfinished_file_named", prop="C01", file="rust/lance/src/dataset/write.rs", what="a failed file finish still yields a data-file descriptor",
          old="        let num_rows = self.writer.finish().await? as u32;",
          new="        let num_rows = self.writer.finish().await.unwrap_or(0) as u32;",
@@ -401,4 +394,51 @@ pub async fn plan_compaction(""", expect="mutator:dataset::optimize::drop_old_fi
             path: full_path.to_string(),""", expect="adapter-path:V2WriterAdapter"),
     dict(name="c42_txn_full_path", prop="C42", file=LC, what="manifest records the full transaction-file path",
          old="    Ok(file_name)\n}", new="    Ok(path.to_string())\n}", expect="returned-name"),
+    # ------------------------------------------------------------------ C13
+    dict(name="c13_versions_not_carried", prop="C13", file=OPT, what="compaction with stable row ids no longer recomputes the per-row versions",
+         old="""        if dataset.manifest.uses_stable_row_ids() {
+            recalc_versions_for_rewritten_fragments(""",
+         new="""        if dataset.manifest.uses_stable_row_ids() && options.defer_index_remap {
+            recalc_versions_for_rewritten_fragments(""", expect="stable:versions"),
+    dict(name="c13_unordered_scan", prop="C13", file=OPT, what="the compaction scan is no longer ordered",
+         old="        .scan_in_order(true);", new="        .scan_in_order(false);", expect="INV-scan|in-order"),
+    dict(name="c13_sequences_not_sorted", prop="C13", file=OPT, what="old row-id sequences are rechunked in load order, not fragment order",
+         old="""    old_sequences.sort_by_key(|(frag_id, _)| {
+        old_fragments
+            .iter()
+            .position(|frag| frag.id as u32 == *frag_id)
+            .expect("Fragment not found")
+    });""", new="", expect="rowids:sorted"),
+    dict(name="c13_versions_unmasked", prop="C13", file=OPT, what="created_at versions of deleted rows are not masked out before rechunking",
+         old="            created_at_seq.mask(deletions.to_sorted_iter())?;\n", new="", expect="versions:masked"),
+    dict(name="c13_ids_reserved_late", prop="C13", file=OPT, what="the address map is built before the new fragments have ids",
+         old="""        reserve_fragment_ids(&dataset, new_fragments.iter_mut()).await?;
+
+        if options.defer_index_remap {""",
+         new="""        if options.defer_index_remap {
+            reserve_fragment_ids(&dataset, new_fragments.iter_mut()).await?;""", expect="address:reserve"),
+    dict(name="c13_remap_skipped", prop="C13", file=OPT, what="commit_compaction drops the remapped indices",
+         old="""                new_index_version: rewritten.index_version,
+            })
+            .collect()
+    } else if""",
+         new="""                new_index_version: rewritten.index_version,
+            })
+            .filter(|_| false)
+            .collect::<Vec<RewrittenIndex>>();
+        Vec::new()
+    } else if""", expect="rewritten_indices"),
+    # ------------------------------------------------------------------ C43
+    dict(name="c43_exclude_drops_nullability", prop="C43", file=FIELD, occ=1, what="Field::exclude returns the kept parent as nullable",
+         old="                nullable: self.nullable,", new="                nullable: true,", expect="exclude:nullable"),
+    dict(name="c43_project_loses_metadata", prop="C43", file=FIELD, occ=0, what="Field::project drops field metadata",
+         old="            metadata: self.metadata.clone(),", new="            metadata: HashMap::new(),", expect="project:metadata"),
+    dict(name="c43_stored_pk_lost", prop="C43", file="rust/lance-file/src/datatypes.rs", what="the unenforced-primary-key flag is not written to the stored field",
+         old="            unenforced_primary_key: field.unenforced_primary_key,\n        }\n    }\n}\n\npub struct Fields",
+         new="            unenforced_primary_key: false,\n        }\n    }\n}\n\npub struct Fields", expect="encode:unenforced_primary_key"),
+    dict(name="c43_encoding_table_skew", prop="C43", file="rust/lance-file/src/datatypes.rs", what="RLE is written with the dictionary code",
+         old="                Some(Encoding::RLE) => 4,", new="                Some(Encoding::RLE) => 3,", expect="TABLE-encoding"),
+    dict(name="c43_arrow_nullable", prop="C43", file=FIELD, what="Field -> ArrowField always nullable",
+         old="        let out = Self::new(&field.name, field.data_type(), field.nullable);",
+         new="        let out = Self::new(&field.name, field.data_type(), true);", expect="to-arrow:nullable"),
 ]
